@@ -1,5 +1,4 @@
-import Netconan.Proofs.Ipv4Lang
-import Netconan.Proofs.IpScan
+import Netconan.Proofs.PatShape
 import Netconan.Pinned.Patterns
 import Netconan.Generated.Patterns
 /-!
@@ -8,22 +7,6 @@ import Netconan.Generated.Patterns
 namespace Netconan
 namespace NoSurvival
 open Regex
-
-/-- the pieces of a pattern `(?:(?<=^)|(?<=E))(core)tail` (defaults when the shape is different) -/
-def encOf : Re → CharSet
-  | .seq (.alt _ (.look _ _ _ (.chr e))) _ => e
-  | _ => []
-def coreOf : Re → Re
-  | .seq _ (.seq (.grp _ c) _) => c
-  | _ => .fail
-def tailOf : Re → Re
-  | .seq _ (.seq _ t) => t
-  | _ => .fail
-def tailXOf : Re → Re
-  | .seq _ (.seq _ (.seq (.rep _ _ _ (.look _ _ _ x)) _)) => x
-  | _ => .fail
-
-def tail4 (enc : CharSet) (x : Re) : Re := .seq (.rep 0 (some 1) true (.look true false 0 x)) (laRe enc)
 
 theorem pinned_ipv4_shape :
     Pinned.Patterns.ipv4 = ipRe Pinned.Patterns.cs0 core4 (tail4 Pinned.Patterns.cs0 (tailXOf Pinned.Patterns.ipv4)) := rfl
